@@ -28,6 +28,17 @@ fn remove_steps(t: &Trace, session: usize, start: usize, len: usize) -> Trace {
         }
     }
     c.injections = inj;
+    let mut pre = Vec::new();
+    for p in &t.pre_call_env {
+        if p.session != session || p.step < start {
+            pre.push(p.clone());
+        } else if p.step >= start + len {
+            let mut q = p.clone();
+            q.step -= len;
+            pre.push(q);
+        }
+    }
+    c.pre_call_env = pre;
     c
 }
 
@@ -44,6 +55,12 @@ pub fn shrink(trace: &Trace, key: &str, ctx: &Arc<ExecCtx>, max_execs: usize, ma
         c.sessions.remove(s);
         c.injections.retain(|i| i.session != s);
         for i in c.injections.iter_mut() {
+            if i.session > s {
+                i.session -= 1;
+            }
+        }
+        c.pre_call_env.retain(|i| i.session != s);
+        for i in c.pre_call_env.iter_mut() {
             if i.session > s {
                 i.session -= 1;
             }
